@@ -51,6 +51,15 @@ theorem app_route_before_handler_after :
        "_1 = append(_1, _3.wrapHandler(_5))",
        "range _2.after {", "_1 = append(_1, _3.wrapHandler(_4))", "}"] := by decide
 
+/-- per-route options (`Model/RouteOpts.lean`: `apply`, `applyAll`): `WithBefore` / `WithAfter` append to the
+    configuration, a `RouteOptions` set applies its members in order to the same configuration, and `registerRoute`
+    applies the options in the order given to an empty `routeConfig` -/
+theorem app_route_options_shape :
+    app_WithBefore = ["_1.before = append(_1.before, _2...)"] ∧
+    app_WithAfter = ["_1.after = append(_1.after, _2...)"] ∧
+    app_RouteOptions = ["range _1 {", "_2(_3)", "}"] ∧
+    app_registerRoute_options.take 4 = ["_1 := &routeConfig{}", "range _2 {", "_3(_1)", "}"] := by decide
+
 /-- `wrapHandler` is transparent for the chain: it calls the app handler exactly once; its only deferred work is the
     hand-back of the pooled app context -/
 theorem app_wrap_is_transparent : app_wrapHandler = ["defer {", "}", "_1(_2)"] := by decide
